@@ -12,6 +12,8 @@
 (*   lhw    the container wrappers that meet a wide definite length head     *)
 (*   mut    KeepRaw only: bytes after deref_mut().push(3)                    *)
 (*   mut_lh / mut_lhw   the same two classifiers for the mutated value       *)
+(*   origins  per way of obtaining the KeepRaw (decoded, to_owned, clone,    *)
+(*          clone of owned, From<T>/serde): bytes before / after the script  *)
 EXTENDS CborHelpersDom, Json
 
 Row(t, i) ==
@@ -25,7 +27,12 @@ Row(t, i) ==
         mutable |-> a /\ CanMutate(t),
         mut   |-> IF a /\ CanMutate(t) THEN Ser(Enc(t, Mutate(t, v))) ELSE <<>>,
         mut_lh |-> IF a /\ CanMutate(t) THEN Ser(EncX(t, Mutate(t, v), TRUE)) ELSE <<>>,
-        mut_lhw |-> IF a /\ CanMutate(t) THEN WideHeads(t.e, i) ELSE {}]
+        mut_lhw |-> IF a /\ CanMutate(t) THEN WideHeadsIn(t, i) ELSE {},
+        origins |-> IF a /\ CanMutate(t)
+                    THEN [o \in Origins |-> LET w == Orig(t, v, o) IN
+                             [before |-> Ser(Enc(t, w)), after |-> Ser(Enc(t, Mutate(t, w))),
+                              before_lh |-> Ser(EncX(t, w, TRUE)), after_lh |-> Ser(EncX(t, Mutate(t, w), TRUE))]]
+                    ELSE <<>>]
 
 ASSUME \A k \in 1..Len(Types) : \A i \in Dom(Types[k]) : PrintT(<<"VEC", ToJson(Row(Types[k], i))>>)
 =============================================================================
